@@ -11,7 +11,6 @@ equality of the generating map).
 import numpy as np
 
 from vf import vihelp as vh
-from vf.runner import Skip
 
 META = dict(
     id="C20", level="exploration",
@@ -31,8 +30,8 @@ META = dict(
                  "classic WienerFilterCurvature with diagonal noise only (needs N.inverse.draw_sample)"],
     need=["wf_signal_mean", "wf_data_mean", "wf_cov", "curvature_mean", "curvature_cov",
           "cl_map_mean", "cl_mgvi_mean", "cl_mgvi_cov", "re_map_mean", "re_mgvi_mean", "re_mgvi_cov"],
-    quick=dict(cases=360, workers=8, budget_s=60),
-    thorough=dict(cases=9000, workers=16, budget_s=780),
+    quick=dict(cases=700, workers=8, budget_s=75),
+    thorough=dict(cases=25000, workers=16, budget_s=780),
     design_ref="DESIGN.md §5 C20",
     level_text=("every generated model is pushed through the real routes and compared with the dense "
                 "closed form; exploration of models x routes, not exhaustive"),
@@ -56,6 +55,10 @@ FAMS = ["curv", "cl_map", "cl_mgvi", "wf_sig", "wf_dat", "re_map", "re_mgvi"]
 
 
 def case(ck, i):
+    return vh.run_case(ck, _case, i)
+
+
+def _case(ck, i):
     rng = ck.rng()
     u = rng.uniform()
     if i < 7:
@@ -84,11 +87,11 @@ def case(ck, i):
     cond = np.linalg.cond(D)
     if cond > 1e6 or mir.cond_N > 1e6:
         ck.note(dict(model=vh.model_brief(m), fam=fam), nontrivial=False, klass=fam)
-        raise Skip("posterior covariance condition number > 1e6")
+        raise vh.SkipCase("posterior covariance condition number > 1e6")
     # the two closed forms of the mean must agree (oracle self-check, skip if ill-conditioned)
     if vh.relerr(mean, mean_d) > 1e-9:
         ck.note(dict(model=vh.model_brief(m), fam=fam), nontrivial=False, klass=fam)
-        raise Skip("closed forms of the posterior mean disagree beyond 1e-9 (ill-conditioned)")
+        raise vh.SkipCase("closed forms of the posterior mean disagree beyond 1e-9 (ill-conditioned)")
     start_at_mean = bool(rng.integers(0, 4) == 0)
     x0 = mean.copy() if start_at_mean else rng.standard_normal(mir.n)
     seed = int(rng.integers(0, 2**31))
@@ -105,7 +108,7 @@ def _claimed_convergence(ck, mir, got, what):
     g = np.max(np.abs(mir.gradH(np.asarray(got, dtype=float))))
     if g > 1e-8:
         ck.hit("minimiser_not_converged")
-        raise Skip(f"{what}: minimiser stopped before its gradient tolerance")
+        raise vh.SkipCase(f"{what}: minimiser stopped before its gradient tolerance")
 
 
 def _cmp_mean(ck, key, what, got, mean, hit):
@@ -321,14 +324,14 @@ def case_re(ck, rng, fam, m, mir, D, mean, x0, seed, desc, nontriv):
         finally:
             rs.off()
         if info is not None and int(info) != 0:
-            raise Skip("JAX CG (mean) reported info != 0")
+            raise vh.SkipCase("JAX CG (mean) reported info != 0")
         got = vh.re_vec(mir, smp.pos)
         _cmp_mean(ck, f"mean-mismatch:re:wiener_filter_posterior:{'signal' if sig else 'data'}-space",
                   "wiener_filter_posterior mean differs from the exact posterior mean", got, mean,
                   "wf_signal_mean" if sig else "wf_data_mean")
         if with_samples:
             if not np.all(np.asarray(sinfo) == 0):
-                raise Skip("JAX CG (samples) reported info != 0")
+                raise vh.SkipCase("JAX CG (samples) reported info != 0")
             A = vh.re_vec(mir, smp._samples, batch=2 * nk)
             if not np.array_equal(A[1::2], -A[0::2]):
                 ck.violation("mirror-not-negative:re:wiener_filter_posterior",
@@ -369,7 +372,7 @@ def case_re(ck, rng, fam, m, mir, D, mean, x0, seed, desc, nontriv):
                   "re_map_mean")
         return
     if not np.all(np.asarray(st.sample_state) == 0):
-        raise Skip("JAX CG (samples) reported info != 0")
+        raise vh.SkipCase("JAX CG (samples) reported info != 0")
     if not np.array_equal(np.asarray(smp.keys), np.asarray(ks)):
         raise RuntimeError("harness: optimize_kl derived other sample keys than predicted")
     _cmp_mean(ck, "mean-mismatch:re:optimize_kl:mgvi",
